@@ -182,8 +182,18 @@ class QueueSemantivaOrchestrator:
 
                 # If the user requested a Future, resolve it now
                 if jid in self.pending_futures:
-                    self.pending_futures[jid].set_result((msg.data, msg.context))
-                    del self.pending_futures[jid]
+                    fut = self.pending_futures.pop(jid)
+                    error = (msg.metadata or {}).get("error")
+                    if error is not None:
+                        # The worker reported a failed job: complete exceptionally
+                        exc = (msg.metadata or {}).get("exception")
+                        fut.set_exception(
+                            exc
+                            if isinstance(exc, BaseException)
+                            else RuntimeError(str(error))
+                        )
+                    else:
+                        fut.set_result((msg.data, msg.context))
 
                 # Acknowledge receipt if transport supports it
                 try:
